@@ -45,7 +45,7 @@ def sinks(chk, prog):
             if desc_contains(d, lambda y: y[0] == "param") and not core.desc_calls_named(d, "frame::Frame::new") and p.endswith("send_raw"):
                 # the data is a parameter: each caller is an instance
                 callers = prog.callers_of(r"^humphrey_ws::stream::WebsocketStream::send_raw$")
-                chk.floor("send_raw callers", len(callers), 3)
+                chk.floor("send_raw callers", len(callers), 1)
                 for cb, cblk, ct in callers:
                     dd = describe(prog, cb, ct["args"][1])
                     ok, bad = frame_bytes(prog, cb, dd)
@@ -56,7 +56,7 @@ def sinks(chk, prog):
             chk.ob("R1.frames_only", p, f"bytes written to the WebSocket stream are a serialised frame [{_what(d)}]", ok,
                    ("the frame's payload (frame.as_ref()) is written without its header: the peer receives unframed bytes / nothing for an empty payload"
                     if bad else f"written data {panics.short_desc(d)} is not derived from Vec<u8>::from(Frame) / Message::to_frame"), where=b.where(blk))
-    chk.floor("WebSocket stream write sinks", n, 6)
+    chk.floor("WebSocket stream write sinks", n, 3)
 
 
 def _what(d):
